@@ -775,8 +775,17 @@ def rule_kernel_dtype(ctx):
             continue
         mandatory = any(isinstance(n, ast.If) and norm(n.test) == 'out is None' and any(isinstance(b, ast.Raise) for b in n.body)
                         for n in walk_no_nested(fi.node))
-        if not mandatory:
-            continue        # with out=None the kernel returns its own buffer; nothing is copied into a promoted array
+        # (a kernel that never copies a work buffer into `out` has nothing to check: with out=None it returns its own buffer)
+        # the premise "the caller promotes the dtype of out" needs a caller that passes `out`
+        npos = len(fi.value_params())
+        passed = False
+        for g in m.all_functions():
+            for c_ in walk_no_nested(g.node):
+                if isinstance(c_, ast.Call) and isinstance(c_.func, ast.Attribute) and c_.func.attr == name \
+                        and (any(k.arg == 'out' for k in c_.keywords) or len(c_.args) >= npos):
+                    passed = True
+        if not passed and not mandatory:
+            continue
         copies = [st for st in walk_no_nested(fi.node) if isinstance(st, ast.Assign) and len(st.targets) == 1
                   and isinstance(st.targets[0], ast.Subscript) and norm(st.targets[0].value) == 'out'
                   and (isinstance(st.value, ast.Name) or (isinstance(st.value, ast.Subscript) and isinstance(st.value.value, ast.Name)))]
@@ -1439,6 +1448,57 @@ def _axis_sign_test(t):
     return None
 
 
+def _whole_array_map(m, fi, name, fn, calls):
+    """`fn` applied once to the whole (D,P,...) array: -> (ok, text) or None when the form is not understood.
+    The data axis an `axis` argument selects is evaluated for element ranks 1..3 and every legal axis value."""
+    from .indexenum import returned_expression, NotEvaluable
+    vp = fi.value_params()
+    if not vp or len(calls) != 1:
+        return None
+    a = vp[0]
+    c = calls[0]
+    if not (c.args and norm(c.args[0]) in (a + '.data', a + '.data[...]')):
+        return None
+    kw = {k.arg: k.value for k in c.keywords if k.arg}
+    if name in ('tril', 'triu'):
+        # numpy.tril/triu act on the last two axes of an N-d array
+        if len(c.args) >= 2 or 'k' in kw:
+            return True, '`%s` acts on the last two axes of the coefficient array' % norm(c)[:60]
+        return False, 'parameter `k` is not forwarded to %s' % fn
+    if name == 'trace':
+        a1, a2 = kw.get('axis1'), kw.get('axis2')
+        if a1 is not None and a2 is not None and {norm(a1), norm(a2)} in ({'2', '3'}, {'-2', '-1'}):
+            return True, '`%s` traces the two matrix axes' % norm(c)[:60]
+        if a1 is None and a2 is None and len(c.args) == 1:
+            return False, '`%s` traces axes 0 and 1 - the coefficient and direction axes' % norm(c)[:60]
+        return None
+    if name in ('fft', 'ifft'):
+        ax = kw.get('axis') if 'axis' in kw else (c.args[2] if len(c.args) > 2 else None)
+        nn = kw.get('n') if 'n' in kw else (c.args[1] if len(c.args) > 1 else None)
+        if nn is None or 'n' not in {x.id for x in ast.walk(nn) if isinstance(x, ast.Name)}:
+            return False, 'parameter `n` is not forwarded to %s' % fn
+        if ax is None:
+            return False, '`%s` transforms the last axis whatever `axis` says' % norm(c)[:60]
+        for rk in (1, 2, 3):
+            for k in range(-rk, rk):
+                facts = {'%s.ndim' % a: rk, '%s.data.ndim' % a: rk + 2, 'len(%s.shape)' % a: rk, 'len(%s.data.shape)' % a: rk + 2,
+                         'numpy.ndim(%s.data)' % a: rk + 2}
+                ret, ie = returned_expression(m, fi, {'axis': k}, facts)
+                try:
+                    got = ie.ev(ax)
+                except NotEvaluable:
+                    return None
+                if not isinstance(got, int):
+                    return None
+                want = k + 2 if k >= 0 else k + rk + 2
+                if got % (rk + 2) != want:
+                    names = {0: 'coefficient axis D', 1: 'direction axis P'}
+                    return False, ('`%s`: for an operand of rank %d and axis=%d the transform runs along data axis %d%s, expected data axis %d'
+                                   % (norm(c)[:60], rk, k, got % (rk + 2), ' (the %s)' % names[got % (rk + 2)] if got % (rk + 2) in names else '', want))
+        return True, '`%s` selects data axis axis+2 (axis >= 0) resp. the same negative axis, for ranks 1..3' % norm(c)[:60]
+    return None
+
+
 def rule_map(ctx):
     r = RuleResult('C13.map', 'slice-wise operations apply the NumPy function of their own name to slice [d,p] inside full d and p loops and '
                               'forward every extra parameter; sum shifts a non-negative axis by the two leading (D,P) axes and a negative axis by data.ndim')
@@ -1457,7 +1517,16 @@ def rule_map(ctx):
                         inner.extend(c for c in ast.walk(lp2) if isinstance(c, ast.Call) and dotted_name(c.func) == fn)
         probs = []
         if not inner:
-            probs.append('%s is not applied inside `for d in range(D): for p in range(P)`' % fn)
+            # not the slice-wise loop: a call on the whole coefficient array is decided by its axis arguments; anything else is not decided
+            verdict = _whole_array_map(m, fi, name, fn, calls)
+            if verdict is None:
+                r.unknown(fi.site(), '%s is applied neither slice-wise inside `for d in range(D): for p in range(P)` nor to the whole coefficient array in a '
+                                     'form whose axes can be evaluated' % fn)
+            elif verdict[0]:
+                r.ok(construct=name + ':whole-array', nontrivial=True, sample='UTPM.%s: %s' % (name, verdict[1]))
+            else:
+                r.bad(Finding('C13.map', _f(fi), name + ':axis', 'UTPM.%s: %s' % (name, verdict[1]), fi.file, fi.lineno))
+            continue
         for c in inner:
             if not (c.args and isinstance(c.args[0], ast.Subscript) and norm(c.args[0].slice).replace(' ', '') in ('(d,p)', '(d,p,...)')):
                 probs.append('%s is not applied to slice [d, p]: `%s`' % (fn, norm(c)[:60]))
